@@ -531,15 +531,32 @@ func (c *ictx) checkErr(method string, err error) {
 				c.diff(method, fmt.Sprintf("non-library error %T %q", err, short(text, 200)), "ParsingError or ValidationError", "K-C07-recerr")
 				return
 			}
+			var re runtime.Error
+			isRuntime := stderrors.As(err, &re)
+			isBare := stderrors.As(err, &le) // a bare errors.ErrorCode / errors.Errorf value
+			// K-C07-dupname: a second AddType of a name the schema already has returns the bare code 403 value
+			if isBare && !isRuntime && le.Code() == liberrors.ErrDuplicationOfNameOfTypes && strings.Contains(method, ".AddType") && (c.in.dupType || c.in.nested) {
+				c.stat("known:K-C07-dupname")
+				c.diff(method, fmt.Sprintf("non-library error %T %q", err, short(text, 200)), "ParsingError or ValidationError", "K-C07-dupname")
+				return
+			}
+			// K-C07-exampleerr: Example() returns bare error codes / fmt errors, not DocumentErrors
+			if strings.HasSuffix(method, ".Example") && !strings.HasPrefix(method, "regex.") && !isRuntime {
+				tn := fmt.Sprintf("%T", err)
+				if isBare || tn == "*fmt.wrapError" || tn == "*errors.errorString" {
+					c.stat("known:K-C07-exampleerr")
+					c.diff(method, fmt.Sprintf("non-library error %T %q", err, short(text, 200)), "ParsingError or ValidationError", "K-C07-exampleerr")
+					return
+				}
+			}
 			for _, a := range acceptedPlain {
 				if strings.HasPrefix(method, a.methodPrefix) && strings.HasPrefix(text, a.textPrefix) {
 					c.stat(a.stat)
 					return
 				}
 			}
-			var re runtime.Error
 			kind := "non-library error"
-			if stderrors.As(err, &re) {
+			if isRuntime {
 				kind = "leaked runtime error"
 			}
 			c.diff(method, fmt.Sprintf("%s %T %q", kind, err, short(text, 300)), "ParsingError or ValidationError", "")
